@@ -135,6 +135,9 @@ def make_data(kind, k):
     return base
 
 
+KNOWN_RELEASE_RACE = "release-overtakes-reference-during-unbox"
+
+
 class Budget(BaseException):
     """the program makes more invocations than a case may (not an Exception: no `except Exception` catches it)"""
 
@@ -620,6 +623,21 @@ def run_dist(world):
     with net.installed():
         # public attributes readable: the observation `x.probe` of a by-reference argument is an attribute read
         ca, cb = net.connect_pair(None, SideB(), dict(allow_public_attrs=True), dict(allow_public_attrs=True))
+        # watch both tables: a LOCAL_REF that does not resolve although the peer still holds (or has just sent) a
+        # reference is the signature of a known finding (see KNOWN_RELEASE_RACE)
+        from rpyc.lib.colls import RefCountingColl
+        misses = []
+
+        class Watched(RefCountingColl):
+            __slots__ = ()
+
+            def __getitem__(self, key):
+                try:
+                    return RefCountingColl.__getitem__(self, key)
+                except KeyError:
+                    misses.append(key)
+                    raise
+        ca._local_objects, cb._local_objects = Watched(), Watched()
         try:
             try:
                 root = ca.root
@@ -648,6 +666,7 @@ def run_dist(world):
             world.proxy = {}
             net.shutdown([ca])
     info["thread_exceptions"] = [t for t in net.trace if t and t[0] == "thread-exception"]
+    info["unresolved_local_refs"] = len(misses)
     return out, list(world.counts), raw, dict(world.stats), info
 
 
@@ -1085,6 +1104,12 @@ def class_only(text):
     return "%s | %s" % (" ".join(t[:2]) if t and t[0] in ("exc", "stuck") else (t[0] if t else ""), c)
 
 
+def classify(res):
+    """signature of a failed case: the known race (a LOCAL_REF did not resolve: a release notice was dispatched by the
+    nested serve() of a HANDLE_INSPECT round trip while the package referring to the object was being unboxed), or None"""
+    return KNOWN_RELEASE_RACE if res is not None and res.info.get("unresolved_local_refs") else None
+
+
 def oracle_case(prog, res=None):
     """the property on the real code alone: None if it holds for this program, else a description"""
     if outside_domain(prog):
@@ -1101,8 +1126,9 @@ def oracle_case(prog, res=None):
     if res.obs_dist != res.obs_local:
         for a, b in zip(res.obs_dist + [None] * len(res.obs_local), res.obs_local + [None] * len(res.obs_dist)):
             if a != b:
-                return ("an argument / result that must travel by reference is seen differently: distributed run observes "
-                        "%r (where, class, .probe, object), one process observes %r" % (a, b))
+                show = lambda o: "nothing there (the value arrived as a plain immutable copy, or not at all)" if o is None else repr(o)
+                return ("an argument / result that must travel by reference is seen differently - (where, class name, "
+                        ".probe, which object): the distributed run observes %s, the one-process run observes %s" % (show(a), show(b)))
     return None
 
 
@@ -1124,7 +1150,7 @@ def correspondence(ctx):
               "counter), and distributed vs one-process on the real code (the oracle). Non-trivial: at least one remote "
               "call; distinct = (outcome kind, exception class, max depth, remote-call / raise / remote-catch buckets).")
     r = Rng(ctx.seed).fork("c01")
-    n_rand = ctx.budget(1000, 6000)
+    n_rand = ctx.budget(900, 6000)
     deadline = time.time() + ctx.budget(45, 300)
     progs = list(boundary_programs())
     cases, lines = [], []
@@ -1155,8 +1181,19 @@ def correspondence(ctx):
         c.error = str(ex)
         return c
     origin = dict(values=0, refs=0)
+    import pipeline
+    known_sigs = set(k.get("signature") for k in pipeline.load_known() if k.get("property") == ID and k.get("status") == "known")
+    known_hits = collections.Counter()
     for i, (prog, res) in enumerate(cases):
         od = outside_domain(prog)
+        if classify(res) in known_sigs:
+            # the distributed run hit a listed known finding: nothing about this case is compared (the one-process
+            # run still is, below)
+            known_hits[classify(res)] += 1
+            c.evaluations += 1
+            if fmt(*res.local) != parse_model(outs[2 * i + 1]) and not od:
+                c.disagreements.append(dict(case=prog_to_json(prog), mode="loc", impl=fmt(*res.local)[:600], model=parse_model(outs[2 * i + 1])[:600]))
+            continue
         for mode, impl, got in (("dist", res.dist, outs[2 * i]), ("loc", res.local, outs[2 * i + 1])):
             c.evaluations += 1
             want = fmt(*impl)
@@ -1195,6 +1232,7 @@ def correspondence(ctx):
             c.samples.append(dict(functions=len(prog["fns"]), owners="".join(f["owner"] for f in prog["fns"]),
                                   outcome=fmt(*res.dist)[:200], remote_calls=st["remote_calls"], max_depth=st["max_depth"]))
     c.extra["programs"] = len(cases)
+    c.extra["known_finding_hits"] = dict(known_hits)
     c.extra["by_reference_observation"] = (
         "arguments / results that are not exact instances of brine's types (namedtuple, tuple/str/int/bytes/float/"
         "frozenset subclass instances, enum members, lists, dicts) are `ref` in the Lean model; what a callee can see of "
@@ -1274,13 +1312,59 @@ def oracle_search(ctx, corr, broken):
                     return oracle_case(p) is not None
                 except Exception:  # noqa
                     return False
+            sig0 = classify(run_case(prog))
+            if sig0 in getattr(ctx, "known_signatures", ()):
+                continue
+
+            def still(p, sig0=sig0):      # shrink within the same kind of failure
+                try:
+                    r_ = run_case(p)
+                    return r_ is not None and oracle_case(p, r_) is not None and classify(r_) == sig0
+                except Exception:  # noqa
+                    return False
             small = shrink(prog, still)
             msg2 = oracle_case(small) or msg
-            sig = "calls:" + ("counts" if "counts differ" in msg2 else "result")
+            sig = sig0 or ("calls:" + ("counts" if "counts differ" in msg2 else "by-reference" if "by reference" in msg2 else "result"))
             if sig in getattr(ctx, "known_signatures", ()):
                 continue
             return dict(kind="history", program=prog_to_json(small)), msg2, sig
     return None
+
+
+def known_probes(ctx):
+    """defects of the code the check knows by signature, probed directly on the real code every run"""
+    try:
+        import rpyc
+        from simnet import Net
+
+        class Fresh(object):
+            pass
+
+        class Thing(object):
+            pass
+
+        class S(rpyc.Service):
+            def exposed_f(self, x):
+                return (Fresh(), x)
+        net = Net()
+        with net.installed():
+            ca, cb = net.connect_pair(None, S())
+            t = Thing()
+            try:
+                r = ca.root.f(t)
+                seen = "returned (proxy, the object)" if r[1] is t else "returned something else"
+                reproduces = r[1] is not t
+            except KeyError as ex:
+                seen, reproduces = "raised KeyError(%s)" % (str(ex)[:60],), True
+            except Exception as ex:  # noqa
+                seen, reproduces = "raised %s" % type(ex).__name__, False
+            net.shutdown([ca])
+    except Exception:  # noqa
+        return []
+    return [(KNOWN_RELEASE_RACE, reproduces,
+             "`def f(x): return (Fresh(), x)` called with the caller's own object %s: while the reply is unboxed the proxy of "
+             "the unknown class needs a HANDLE_INSPECT round trip whose nested serve() dispatches the release notice of x "
+             "(B's proxy of x died when the request ended) before the LOCAL_REF(x) of the same reply is resolved" % seen)]
 
 
 def replay(case):
